@@ -82,9 +82,7 @@ pub fn run(case: &Value, f: &mut Fails) {
 		use std::collections::{BTreeSet, HashSet};
 		use std::hash::{Hash, Hasher};
 		fn h<T: Hash + ?Sized>(v: &T) -> u64 {
-			let mut s = std::collections::hash_map::DefaultHasher::new();
-			v.hash(&mut s);
-			s.finish()
+			hash2(v)
 		}
 		const C08: &[&str] = &["C08"];
 		let bv: &DataUrl = bv;
